@@ -6,8 +6,8 @@ from .modelcheck import run_property
 
 def run(tier, seed, verdict):
     quick = tier != "thorough"
-    runs = [mr.ModelRun("MC_Sess_quick.cfg" if quick else "MC_C02.cfg", seed, probes=("dead_ids", "reopen"),
-                        name_pools=[0, 1, 2, 4], stride=5 if quick else 40),
+    runs = [mr.ModelRun("MC_Sess_quick.cfg" if quick else "MC_C02_quick.cfg", seed, probes=("dead_ids", "reopen"),
+                        name_pools=[0, 1, 2, 4], stride=5 if quick else 8),
             mr.ModelRun("MC_Sess_links_quick.cfg" if quick else "MC_C02_links.cfg", seed + 1, probes=("reopen",),
                         name_pools=[0, 2], stride=1),
             # link, unlink, link again on a small block: link lists that become empty in between
